@@ -28,7 +28,7 @@ STATE_TIMEOUT = 300.0
 POSES = [(0, 0), (5, 3), (24, 3), (26, 1), (28, 2), (13, 0), "near1", "near3"]
 TYPES = [t for t in sc.TYPES if t != "hull"]
 SIZES_USED = {t: [0, 3] for t in TYPES}
-SIZES_USED["mesh"] = [0, 6]
+SIZES_USED["mesh"] = [0, 6, 7]     # 7 = mesh whose vertex 0 is referenced by no triangle
 NMODES = 3   # fresh array, item of a pose stack, one caller-owned buffer overwritten in place and passed again
 QDIRS = [0, 1, 2, 3, 4, 5, 6, 9, 14, 20, 26, 27, 28, 29]
 
@@ -267,6 +267,39 @@ def run_state(desc):
                 continue
         if len(seq) >= 2 and len(set(a % len(POSES) for a in seq)) >= 2:
             nontrivial += 1
+    # 'probe' schedule: the very FIRST query after the last update is one support query (a cache that is reset by update_pose is
+    # only visible to the first query; the battery always starts with the same one).  Histories of length <= 2, 8 probe
+    # directions given in the collider's own frame (body diagonals and axes), compared with a fresh collider's support value.
+    probes = [np.array(v, dtype=float) / np.linalg.norm(v) for v in
+              ((1, 1, 1), (-1, -1, -1), (1, -1, 1), (-1, 1, 1), (1, 1, -1), (0, 0, 1), (1, 0, 0), (1, 2, 3))]
+    for seq in [q for q in seqs if len(q) <= 2]:
+        for k, d_local in enumerate(probes):
+            col, _sib = build_sharing(t, s, mv)
+            buf[0] = None
+            try:
+                for action in seq:
+                    pi, P = arr(action)
+                    col.update_pose(P)
+                d = np.ascontiguousarray(stack[pi][:3, :3] @ d_local)
+                n_eval += 1
+                n_trans += 1
+                got = float(np.asarray(col.support_function(d), dtype=float) @ d)
+                key = ("probe", pi, k)
+                if key not in fresh_cache:
+                    c, _ = sc.build_explicit(t, sc.SIZES[t][s], stack[pi].copy(), mv, want_ref=False)
+                    fresh_cache[key] = float(np.asarray(c.support_function(d), dtype=float) @ d)
+                if not abs(got - fresh_cache[key]) <= 1e-11 * L:
+                    v = _viol("differs_from_fresh:first_query_after_update", cls, {"history": list(seq), "probe_direction_local": d_local,
+                                                                                  "got": got, "fresh": fresh_cache[key]})
+                    if v["sig"] not in sigs:
+                        sigs.add(v["sig"])
+                        viol.append(v)
+            except Exception as e:  # noqa
+                v = _viol("query_exception:" + type(e).__name__, cls + ":first_query_after_update",
+                          {"history": list(seq), "probe_direction_local": d_local, "exc": repr(e)[:200]})
+                if v["sig"] not in sigs:
+                    sigs.add(v["sig"])
+                    viol.append(v)
     # the pose stack must not have been modified by the collider
     if not np.array_equal(stack, _pose_arrays()):
         viol.append(_viol("pose_array_mutated", cls, {}))
